@@ -41,6 +41,10 @@ func NewConsensusMessageFilter(instanceId primitives.InstanceId, myMemberId prim
 // TODO: consider adding timestamp to message upon arrival
 func (f *RawMessageFilter) HandleConsensusRawMessage(rawMessage *interfaces.ConsensusRawMessage) {
 	message := interfaces.ToConsensusMessage(rawMessage)
+	if message == nil {
+		f.logger.Info("LHFILTER IGNORING message with unrecognized content")
+		return
+	}
 
 	if f.isMyMessage(message) {
 		f.logger.Debug("LHFILTER IGNORING RECEIVED %s with H=%d V=%d sender=%s IGNORING message I sent", message.MessageType(), message.BlockHeight(), message.View(), termincommittee.Str(message.SenderMemberId()))
